@@ -89,6 +89,10 @@ def items_all():
         eg = Item("E", vs_, tparams=tp)
         eg.empty_generics = True
         add("ok-empty-generics", eg)
+    # two accepted enums of ONE crate with the SAME format string (named placeholders): whatever the macro remembers from one expansion is not
+    # valid in the next (seed C20_r16: cached proc_macro identifiers -> "use-after-free of proc_macro symbol")
+    for tag in ("a", "b"):
+        add("ok-same-format-" + tag, Item("E", [Variant("A", "unit"), Variant("Fail", "named", [Field("u8", "code"), Field("String", "reason")], [tos("error {code}: {reason}")])]))
     # 1 non-enum
     for kind in ("struct", "union"):
         add("nonenum", Item("S", [], kind=kind))
@@ -346,5 +350,10 @@ def extra_checks(corpus, tier, model, impl):
                 viol.append({"kind": "diagnostics", "definition": k, "config": "c20diag", "rust_source": src, "query": "cargo build (derive %s)" % d,
                              "observed": "; ".join(got)[:500], "expected": "an error, not a proc-macro panic", "family": fam,
                              "model_item": corpus.defs[k].sexp()})
+        elif any("panicked" in g for g in got):
+            # an ACCEPTED item: the real proc macro, run by rustc next to all the other expansions of this crate, must not panic either
+            viol.append({"kind": "diagnostics", "definition": k, "config": "c20diag", "rust_source": src, "query": "cargo build (derive %s)" % d,
+                         "observed": "; ".join(got)[:500], "expected": "the macro accepts this item (no proc-macro panic)", "family": fam,
+                         "model_item": corpus.defs[k].sexp()})
     return viol, len(chosen), {"error_message_classes": dict(CLASS_STATS), "diagnostics_compiled_pairs": len(chosen), "diagnostics_expected_errors": nerr,
                                "diagnostics_with_error_at_item": sum(1 for i, p in enumerate(chosen) if p[2] and errs.get(i))}
